@@ -79,6 +79,8 @@ package p2c
 //@   ensures [pair] n == 2 ==> calls(p.choose, p.conns[0], p.conns[1]) == 1
 //@   ensures [early-stop-needs-both-healthy] n >= 3 && local(i) < 3 ==> tail(calls(healthy) == 2 && ret(healthy, 0, 1) && ret(healthy, 0, 2) && arg(healthy, 0, 1) == p.conns[ia] && arg(healthy, 0, 2) == p.conns[ib] && ia != ib && calls(p.choose, p.conns[ia], p.conns[ib]) == 1)
 //@   ensures [sampled-pair-decided-by-choose] n >= 3 ==> calls(choose) == 1 && arg(choose, 1) != nil && arg(choose, 2) != nil
+// the counters the completion callback updates atomically outside the lock are updated atomically here too
+//@   ensures [counters-updated-atomically] n > 0 ==> calls(on("atomic", &ret(choose).inflight)) == 1 && calls(on("atomic", &ret(choose).requests)) == 1
 //@   ensures [chosen-accounted] n > 0 ==> result1 == nil && result0.SubConn == ret(choose).conn && ret(choose).inflight == old(ret(choose).inflight) + 1 && ret(choose).requests == old(ret(choose).requests) + 1 && calls(p.buildDoneFunc, ret(choose)) == 1
 //@   ensures [under-lock] calls(on("lock", p.lock)) == 1 && calls(on("unlock", p.lock)) == 1
 
